@@ -158,7 +158,7 @@ func (w *srvWorld) checkC01() {
 		}
 		for _, m := range msg.Members {
 			switch {
-			case m.hasHandler() && m.Enters == 0:
+			case m.hasHandler() && m.Enters == 0 && !(m.Kind == mCall && w.cancelRequested(m)):
 				r.Fail("handler-not-run", "handler for %s (%s) never ran", m.Tag, m.Raw)
 				return
 			case m.hasHandler() && m.Enters > 1:
@@ -250,6 +250,16 @@ func (w *srvWorld) assignReplies() (map[*member]replyRef, string) {
 		if o.Objs[0].Method != "" {
 			continue
 		}
+		allNull := true
+		for _, ob := range o.Objs {
+			if ob.ID != "null" && ob.ID != "" {
+				allNull = false
+			}
+		}
+		if allNull {
+			o.matched = true // answers to id-less members and undecodable input: no id is involved
+			continue
+		}
 		for _, msg := range w.msgs {
 			if msg.Garbage || msg.Empty || msg.Arrive < 0 || msg.Arrive > o.Seq || msg.Batch != o.Array {
 				continue
@@ -274,7 +284,7 @@ func (w *srvWorld) assignReplies() (map[*member]replyRef, string) {
 					break
 				}
 				// a member whose handler produced a tagged outcome is answered by it
-				if t == "" && m.Enters > 0 && (m.Result != "" || (m.Script.Outcome == 1 && m.HErr != "")) {
+				if t == "" && m.Enters > 0 && ((m.Result != "" && strings.Contains(m.Result, m.Tag)) || (m.Script.Outcome == 1 && m.HErr != "")) {
 					ok = false
 					break
 				}
@@ -310,7 +320,7 @@ func (w *srvWorld) assignReplies() (map[*member]replyRef, string) {
 		}
 	}
 	for _, o := range w.out {
-		if o.Objs[0].Method != "" || recOf[o] != nil {
+		if o.Objs[0].Method != "" || recOf[o] != nil || o.matched {
 			continue
 		}
 		for _, c := range cands[o] {
@@ -440,6 +450,26 @@ func (w *srvWorld) checkC07() {
 		for _, b := range bmsg.Members {
 			if b.ID == "" || b.Kind == mInvalid {
 				continue
+			}
+			// B was not rejected although an earlier request with its id was in flight
+			// for the whole time between B's arrival and B's reply: the earlier one
+			// arrived first and its reply was sent only after B's.
+			if ref, ok := replies[b]; ok && !ref.mixed && !isDupReply(ref.obj) {
+				for _, amsg := range w.msgs[:bi] {
+					for _, a := range amsg.Members {
+						if a.ID != b.ID || a.Kind == mInvalid || a.Kind == mReply || amsg.Arrive < 0 || amsg.Arrive > bmsg.Arrive {
+							continue
+						}
+						ra, oka := replies[a]
+						if !oka || ra.mixed || isDupReply(ra.obj) {
+							continue
+						}
+						if ra.lo.Seq > latestEnd(b) {
+							r.Fail("duplicate-accepted-while-in-flight", "call %s (id %s, arrived #%d) was answered %+v at #%d, not rejected, although request %s with the same id had arrived earlier (#%d) and was answered only later (#%d): the id was still reserved", b.Tag, b.ID, bmsg.Arrive, ref.obj.Code, ref.rec.Seq, a.Tag, amsg.Arrive, ra.lo.Seq)
+							return
+						}
+					}
+				}
 			}
 			if b.Enters > 0 {
 				// B was accepted: no earlier same-id call that ran may still be in flight
